@@ -158,19 +158,21 @@ impl NodeIdentity {
     /// Generate from seed (deterministic)
     pub fn from_seed(seed: &[u8; 32]) -> Result<Self> {
         // Deterministically derive key material via HKDF-SHA3
-        use saorsa_pqc::{HkdfSha3_256, api::traits::Kdf};
+        use saorsa_pqc::dsa_traits::{KeyGen, SerDes};
+        use saorsa_pqc::{HkdfSha3_256, api::traits::Kdf, ml_dsa_65};
 
-        // ML-DSA-65 public/secret key sizes (bytes)
-        const ML_DSA_PUB_LEN: usize = 1952;
-        const ML_DSA_SEC_LEN: usize = 4032;
-
-        let mut derived = vec![0u8; ML_DSA_PUB_LEN + ML_DSA_SEC_LEN];
-        HkdfSha3_256::derive(seed, None, b"saorsa-node-identity-seed", &mut derived).map_err(
+        // Derive the 32-byte ML-DSA key-generation seed, then let FIPS 204 deterministic KeyGen
+        // produce a matching public/secret pair (independent random bytes are not a key pair)
+        let mut xi = [0u8; 32];
+        HkdfSha3_256::derive(seed, None, b"saorsa-node-identity-seed", &mut xi).map_err(
             |_| P2PError::Identity(IdentityError::InvalidFormat("HKDF expand failed".into())),
         )?;
+        let (pk, sk) = ml_dsa_65::KG::keygen_from_seed(&xi);
+        xi.fill(0);
+        let (pk, sk) = (pk.into_bytes(), sk.into_bytes());
 
-        let pub_bytes = &derived[..ML_DSA_PUB_LEN];
-        let sec_bytes = &derived[ML_DSA_PUB_LEN..];
+        let pub_bytes = &pk[..];
+        let sec_bytes = &sk[..];
 
         // Construct keys from bytes; these constructors accept byte slices in our integration
         let public_key =
